@@ -5,6 +5,7 @@ C12-V1 (A5) exponent validation: set_slope_exp throws exactly when the exponent 
         constructor goes through set_slope_exp; the classification itself is C13-L1.
 C12-V2 (A4) the erosion array and the correction counter are reset at the start of every erode().
 C12-V3 (A5, order representatives + opaque numerics) per node of the bottom-up sweep: an outlet /
+        [receivers lying above the node never contribute to its implicit update;]
         pit (single own receiver) is never written (erosion stays 0); a node at or below the lake
         level (lowest post-erosion receiver elevation) is never written; the lake level is the
         MINIMUM over the receivers of (elevation - erosion); every write of the node's erosion is
@@ -129,6 +130,18 @@ class EroWorld(World):
         pass
 
 
+class LogTable(Table):
+    """graph table that logs which cells are read"""
+
+    def __init__(self, name):
+        Table.__init__(self, name)
+        self.reads = []
+
+    def get(self, key):
+        self.reads.append(key)
+        return Table.get(self, key)
+
+
 class EroRef:
     pass
 
@@ -238,7 +251,7 @@ def run(db, chk):
 
                 def run_one(dec, recs=recs, h=h, e_old=e_old, e_next=e_next, linear=linear):
                     w = EroWorld(recs, h, e_old, e_next, linear)
-                    R, C, D, Wt = (Table(x) for x in ("r", "c", "d", "w"))
+                    R, C, D, Wt = (LogTable(x) for x in ("r", "c", "d", "w"))
                     C[(NODE,)] = len(recs)
                     for j, r in enumerate(recs):
                         R[(NODE, j)] = r
@@ -293,6 +306,16 @@ def run(db, chk):
                                        "elevation is %r" % (w.lake_tests[-1], lake))
                         if len(w.writes) != 1:
                             bad.append("%d erosion writes for the node (expected one)" % len(w.writes))
+                        # a receiver lying above the node (lake rim) must not contribute to the update
+                        for tbl in ("receivers_weight", "receivers_distance"):
+                            for key in w.tables[tbl].reads:
+                                if len(key) == 2 and key[0] == NODE and key[1] < len(recs) and \
+                                        e_old[recs[key[1]]] > h:
+                                    bad.append("receiver %d lies above the node (%.3g > %.3g) but "
+                                               "contributes to its implicit update: the new elevation "
+                                               "can exceed the old one (negative erosion)"
+                                               % (recs[key[1]], e_old[recs[key[1]]], h))
+                                    break
                         for v in w.writes:
                             if isinstance(v, float):
                                 x = h - v          # concrete representatives: new elevation
